@@ -147,6 +147,21 @@ var specs = map[string]Spec{
 		QuickFloors: map[string]int64{"streams": 8000, "exhaustive_blocks_completed": 288},
 		MaxSamples:  2,
 	},
+	"C20": {
+		Engine: "fwdsim", Run: "^TestMeta$", Race: false,
+		QuickShards: 16, ThoroughShards: 16, QuickWatchdog: 10 * time.Minute, ThoroughWatchdog: 60 * time.Minute,
+		MemGB: 12, CaseTimeoutS: 60,
+		HangViolation: regexp.MustCompile(`ReplicationStreamObserver\)\.ReportStreamValue`),
+		Level:     "exploration",
+		LevelText: "The real stream handler in all three modes, with the real ReplicationStreamObserver wired as createServer wires it, is opened with hostile stream-open metadata (each of the four ids at int32 boundary values, values that wrap in the decoder, non-numeric / missing / duplicated headers, pairs of hostile ids, seeded random int32s) in a child process under ulimit -v; then a well-formed stream must be served end to end on the same server and the observer's counters must return to zero. A hostile open must be served or rejected - a process death is attributed to the case by the driver; a handler parked on the observer's lock (goroutine dump) is the wedge the property names.",
+		LevelNote: "Real time (no bubble): a wedged mutex would keep a virtual clock from advancing. Verdicts are state-based (outgoing stream opened, handler returned, goroutine parked in the observer); a plain timeout without the forbidden state is inconclusive. The assembled gRPC servers in front of the handler are covered by the wire engine.",
+		Technique: "runtime monitor: hostile-input stress of the real handler + observer in child processes (ulimit -v), follow-up liveness probe, counter-conservation check, goroutine-dump inspection for the wedged state",
+		DesignRef: "DESIGN.md §4 C20",
+		Rule:      "cases = mode x (id position x boundary/wrapping/malformed value | pairs | random int32); each case = hostile open + follow-up well-formed stream + conservation check; distinct = distinct (mode, metadata) combinations; all non-trivial",
+		Assumptions: []string{"in-memory streams; fake serving cluster accepts every shard id", "ids up to 2^28 (largest LCM of two supported shard counts) may legitimately allocate bookkeeping; the child runs under ulimit -v 12 GB"},
+		QuickFloors: map[string]int64{"hostile_opens": 700, "follow_up_served_end_to_end": 600},
+		MaxSamples:  3,
+	},
 	"C05": {
 		Engine: "ringmodel", Run: "^TestRing$", Race: false,
 		QuickShards: 16, ThoroughShards: 16, QuickWatchdog: 5 * time.Minute, ThoroughWatchdog: 40 * time.Minute,
